@@ -9,7 +9,7 @@ use crate::builtins::utils::print_stderr_with_capture;
 use crate::shell::Shell;
 use crate::types::{CommandResult, CommandLine, Command};
 
-pub fn run(_sh: &Shell, cl: &CommandLine, cmd: &Command,
+pub fn run(sh: &mut Shell, cl: &CommandLine, cmd: &Command,
            capture: bool) -> CommandResult {
     let mut cr = CommandResult::new();
     let tokens = cmd.tokens.clone();
@@ -40,7 +40,10 @@ pub fn run(_sh: &Shell, cl: &CommandLine, cmd: &Command,
             let name = cap[1].to_string();
             let token = parsers::parser_line::unquote(&cap[2]);
             let value = libs::path::expand_home(&token);
-            env::set_var(name, &value);
+            env::set_var(&name, &value);
+            // the variable is an environment variable from now on; a shell
+            // variable of the same name must not shadow it (see Shell::get_env).
+            sh.envs.remove(&name);
         }
     }
     cr
